@@ -365,11 +365,16 @@ class Sampler():
                     if key in group:
                         setattr(self, key, np.array(group[key]))
 
-                self.bounds = [
-                    UnitCube.read(fstream['bound_0'], rng=self.rng), ]
-                for i in range(1, len(self.shell_n)):
-                    self.bounds.append(NautilusBound.read(
-                        fstream['bound_{}'.format(i)], rng=self.rng))
+                # The first bound is not the unit cube if the first shell was
+                # empty and removed at the end of the exploration phase.
+                self.bounds = []
+                for i in range(len(self.shell_n)):
+                    group_b = fstream['bound_{}'.format(i)]
+                    if group_b.attrs['type'] == 'UnitCube':
+                        bound = UnitCube.read(group_b, rng=self.rng)
+                    else:
+                        bound = NautilusBound.read(group_b, rng=self.rng)
+                    self.bounds.append(bound)
 
     def run(self, f_live=0.01, n_shell=1, n_eff=10000, n_like_max=np.inf,
             discard_exploration=False, timeout=np.inf, verbose=False):
